@@ -129,7 +129,7 @@ def run(ctx):
             violations.append({"signature": "lfp:" + d.split(" ")[0], "what": d,
                                "replay": {"order": list(order), "fields": {k: (list(v[0:1]) + [list(v[1])] if v else None) for k, v in fields.items()},
                                           "present": present}})
-        if sd and len(model_lines) < (20000 if thorough else 1500) and rng.random() < 0.2:
+        if sd and len(model_lines) < (20000 if thorough else 1500 * ctx.get('scale', 1)) and rng.random() < 0.2:
             try:
                 model_lines.append(nrun.encode(sd[0], {}, sd[1], False, "normalized", "c"))
                 model_jobs.append(sd)
@@ -156,7 +156,7 @@ def run(ctx):
                 orders = list(itertools.permutations(names))
                 for order in (orders if thorough else rng.sample(orders, 2)):
                     one(order, fields, {p: rng.choice([1, 'v']) for p in pres}, "graphs_3")
-    for nf, cnt in ((4, 30000 if thorough else 1500), (5, 15000 if thorough else 600), (6, 8000 if thorough else 300)):
+    for nf, cnt in ((4, 30000 if thorough else 1500 * ctx.get('scale', 1)), (5, 15000 if thorough else 600 * ctx.get('scale', 1)), (6, 8000 if thorough else 300 * ctx.get('scale', 1))):
         names = ['a', 'b', 'c', 'd', 'e', 'f'][:nf]
         for _ in range(cnt):
             fields = {}
